@@ -1435,7 +1435,8 @@ pub fn float_vector_sine(push_state: &mut PushState, _instruction_cache: &Instru
     if let Some(sine_params) = push_state.float_stack.pop_vec(3) {
         if let Some(vector_size) = push_state.int_stack.pop() {
             let mut sine_vector = vec![];
-            for i in 0..vector_size as usize {
+            // a negative size means an empty vector (the cast would turn it into ~2^64)
+            for i in 0..i32::max(vector_size, 0) as usize {
                 sine_vector.push(
                     sine_params[2]
                         * (2.0 * std::f32::consts::PI * sine_params[1] * i as f32 + sine_params[0])
